@@ -248,7 +248,8 @@ def with_generated(reqs, exp):
     (Generated/RDOps.lean, ops rdgen.*): the translator is validated against the implementation like the model is"""
     gen = {"rd.add": "rdgen.add", "rd.rsub": "rdgen.rsub", "rd.mk": "rdgen.mk", "rd.expr": "rdgen.expr",
            "rd.bool": "rdgen.bool", "rd.hash": "rdgen.hash", "rd.eq": "rdgen.eq", "rd.diff": "rdgen.diff",
-           "rd.diffn": "rdgen.diffn", "rd.diffo": "rdgen.diffo"}
+           "rd.diffn": "rdgen.diffn", "rd.diffo": "rdgen.diffo", "rd.muldy": "rdgen.muldy", "rd.divp2": "rdgen.divp2",
+           "rd.normalized": "rdgen.normalized"}
     r2, e2 = list(reqs), list(exp)
     for q, e in zip(reqs, exp):
         op = q.split(" ", 1)[0]
@@ -391,3 +392,370 @@ def g_temporal(rng, kinds=("d", "n", "a")):
     tz = None if k == "n" else rng.choice(zones())
     fold = 1 if rng.random() < 0.15 else 0
     return datetime.datetime(y, m, d, hh, mm, ss, us, tzinfo=tz, fold=fold)
+
+
+# ---------- the history of ONE object (use -> mutate -> use …) ----------
+# A relativedelta is mutable (public `weeks` setter, plain attribute assignment).  After every step of a random history the
+# object must answer like (a) the Lean model evaluated on its CURRENT field record and (b) a freshly built object holding the
+# same field values (theorems C16.use_after_set_eq_fresh / same_mutations_same_answer; that a use does not write the record
+# is audited on the source: write_audit).
+
+WRITERS_ALLOWED = ("__init__", "_fix", "_set_months", "weeks.setter")
+_MUTATING_METHODS = {"append", "extend", "insert", "pop", "popitem", "remove", "clear", "update", "setdefault", "add", "discard",
+                     "sort", "reverse", "__setattr__", "__setitem__", "__delattr__", "__delitem__"}
+_PLAIN_DECORATORS = {"property", "weeks.setter", "staticmethod", "classmethod"}
+
+
+def write_audit(repo=None):
+    """every place where a method of class `relativedelta` (src/dateutil/relativedelta.py) could leave something behind
+    that a later call can see, outside __init__ / _fix / _set_months / the weeks setter: attribute stores / deletes
+    (on any object), setattr / delattr / object.__setattr__ / vars() / __dict__ access, `global` / `nonlocal`, stores
+    into (or mutating method calls on) anything that is not a local variable of the function, decorators other than
+    @property / @weeks.setter (memoising wrappers), mutable default arguments, and class-level assignments other than the
+    `__nonzero__ = __bool__` / `__truediv__ = __div__` aliases.  Returns a sorted list of site strings (empty = clean)."""
+    path = os.path.join(repo or vlib.REPO, "src", "dateutil", "relativedelta.py")
+    tree = ast.parse(open(path).read())
+    sites = []
+    cls = next((n for n in tree.body if isinstance(n, ast.ClassDef) and n.name == "relativedelta"), None)
+    if cls is None:
+        return ["class relativedelta not found"]
+    for node in cls.body:
+        if isinstance(node, (ast.Assign, ast.AnnAssign, ast.AugAssign)):
+            ok = isinstance(node, ast.Assign) and isinstance(node.value, ast.Name) and node.value.id.startswith("__") \
+                and all(isinstance(t, ast.Name) for t in node.targets)
+            if not ok:
+                sites.append("class-level state: %s" % ast.unparse(node)[:80])
+            continue
+        if not isinstance(node, (ast.FunctionDef, ast.AsyncFunctionDef)):
+            continue
+        decos = [ast.unparse(d) for d in node.decorator_list]
+        name = node.name + (".setter" if any(d.endswith(".setter") for d in decos) else "")
+        for d in decos:
+            if d not in _PLAIN_DECORATORS:
+                sites.append("%s: decorator @%s" % (name, d))
+        for dflt in list(node.args.defaults) + [d for d in node.args.kw_defaults if d is not None]:
+            if isinstance(dflt, (ast.List, ast.Dict, ast.Set, ast.Call, ast.ListComp, ast.DictComp, ast.SetComp)):
+                sites.append("%s: mutable default argument %s" % (name, ast.unparse(dflt)[:40]))
+        if name in WRITERS_ALLOWED:
+            continue
+        # local variables: parameters and names bound by plain assignment / for / with / comprehension in this function
+        params = {a.arg for a in node.args.args + node.args.kwonlyargs + node.args.posonlyargs}
+        local = set()
+        for n in ast.walk(node):
+            if isinstance(n, ast.Name) and isinstance(n.ctx, ast.Store):
+                local.add(n.id)
+
+        def base_name(e):
+            while isinstance(e, (ast.Attribute, ast.Subscript)):
+                e = e.value
+            return e.id if isinstance(e, ast.Name) else None
+
+        for n in ast.walk(node):
+            where = "%s:%d" % (name, getattr(n, "lineno", 0))
+            if isinstance(n, (ast.Global, ast.Nonlocal)):
+                sites.append("%s: %s" % (where, ast.unparse(n)))
+            elif isinstance(n, ast.Attribute) and isinstance(n.ctx, (ast.Store, ast.Del)):
+                sites.append("%s: attribute write %s" % (where, ast.unparse(n)))
+            elif isinstance(n, ast.Attribute) and n.attr in ("__dict__", "__class__") and not (
+                    n.attr == "__class__" and isinstance(n.ctx, ast.Load)):
+                sites.append("%s: %s access" % (where, ast.unparse(n)))
+            elif isinstance(n, ast.Subscript) and isinstance(n.ctx, (ast.Store, ast.Del)):
+                b = base_name(n.value)
+                if b is None or b in params or b not in local:
+                    sites.append("%s: item write %s" % (where, ast.unparse(n)[:60]))
+            elif isinstance(n, ast.Call):
+                f = n.func
+                if isinstance(f, ast.Name) and f.id in ("setattr", "delattr", "vars", "globals", "locals", "exec", "eval"):
+                    sites.append("%s: call %s" % (where, ast.unparse(n)[:60]))
+                elif isinstance(f, ast.Attribute) and f.attr in _MUTATING_METHODS:
+                    b = base_name(f.value)
+                    if b is None or b in params or b not in local:
+                        sites.append("%s: mutating call %s" % (where, ast.unparse(n)[:60]))
+    return sorted(sites)
+
+
+def capture_hash_tuple(d):
+    """the tuple relativedelta.__hash__ passes to hash(), canonicalised like Ops `rd.hash`; and the hash value"""
+    import builtins
+    from dateutil import relativedelta as R
+    got = []
+
+    def spy(t):
+        got.append(t)
+        return builtins.hash(t)
+    R.hash = spy
+    try:
+        h = hash(d)
+    finally:
+        del R.hash
+    if len(got) != 1 or not isinstance(got[0], tuple) or len(got[0]) != 16:
+        return "unexpected %r" % (got,), h
+    t = got[0]
+    try:
+        w = "-" if t[0] is None else "(%s,%s)" % (oint(t[0][0]), oint(t[0][1]))
+        return " ".join([w] + [oint(x) for x in t[1:]]), h
+    except Exception:
+        return "unexpected %r" % (t,), h
+
+
+def clone_record(d):
+    """a FRESH object (never used) holding exactly d's current field record, `_has_time` included"""
+    from dateutil.relativedelta import relativedelta
+    f = relativedelta()
+    for k in REL + ABS + ["weekday", "_has_time"]:
+        setattr(f, k, getattr(d, k))
+    return f
+
+
+def reachable(d):
+    """is the current record one the constructor can return (normal form, `_has_time` consistent, integer fields)?"""
+    if not is_int_valued(d):
+        return False
+    has = bool(d.hours or d.minutes or d.seconds or d.microseconds or d.hour is not None or d.minute is not None
+               or d.second is not None or d.microsecond is not None)
+    return abs(d.microseconds) <= 999999 and abs(d.seconds) <= 59 and abs(d.minutes) <= 59 and abs(d.hours) <= 23 \
+        and abs(d.months) <= 11 and int(d._has_time) == int(has)
+
+
+def g_steps(rng, n, tame=0.7):
+    """a random history: ["use", kind] / ["set", field, value] / ["weeks", v] / ["wd", w, n]"""
+    steps = []
+    uses = ["add", "radd", "rsub", "hash", "eq", "bool", "neg", "abs", "normalized", "repr", "mul", "addrd", "weeks"]
+    for _ in range(n):
+        r = rng.random()
+        if r < 0.5:
+            steps.append(["use", rng.choice(uses)])
+        elif r < 0.68:
+            steps.append(["weeks", rng.choice([0, 1, -1, 2, 3, -4, 10, rng.randint(-60, 60)])])
+        elif r < 0.88:
+            k = rng.choice(REL)
+            if rng.random() < tame:
+                hi = {"years": 50, "months": 11, "days": 400, "leapdays": 1, "hours": 23, "minutes": 59, "seconds": 59,
+                      "microseconds": 999999}[k]
+                v = rng.choice([0, 1, -1, hi, -hi, rng.randint(-hi, hi)])
+            else:
+                v = g_rel(rng, 300)
+            steps.append(["set", k, v])
+        elif r < 0.95:
+            k = rng.choice(ABS)
+            hi = {"year": 9999, "month": 12, "day": 31, "hour": 23, "minute": 59, "second": 59, "microsecond": 999999}[k]
+            steps.append(["set", k, rng.choice([None, None, 1, hi, rng.randint(1, hi)])])
+        else:
+            steps.append(["wd", rng.choice([None, rng.randint(0, 6)]), rng.choice([None, 1, -1, 2, -3])])
+    return steps
+
+
+def apply_step(d, st):
+    """mutate d (steps of kind use are handled by the caller)"""
+    from dateutil._common import weekday
+    if st[0] == "weeks":
+        d.weeks = st[1]
+    elif st[0] == "set":
+        setattr(d, st[1], st[2])
+    elif st[0] == "wd":
+        d.weekday = None if st[1] is None else weekday(st[1], st[2])
+
+
+def step_wire(st):
+    if st[0] == "use":
+        return "U"
+    if st[0] == "weeks":
+        return "W %d" % st[1]
+    if st[0] == "wd":
+        return "D %s %s" % (oint(st[1]), oint(st[2] if st[1] is not None else None))
+    if st[1] in REL:
+        return "S %d %d" % (REL.index(st[1]), st[2])
+    return "A %d %s" % (ABS.index(st[1]), oint(st[2]))
+
+
+def observations(d, x, probe):
+    """every observation of the object, as comparable strings (never mutates d)"""
+    obs = {}
+    obs["add"] = run(lambda: x + d, t_show)
+    obs["radd"] = run(lambda: d + x, t_show)
+    obs["rsub"] = run(lambda: x - d, t_show)
+    obs["hash"] = run(lambda: hash(d), str)          # the VALUE (a memo that is invalidated correctly is not a defect)
+    obs["eq"] = run(lambda: (d == probe, probe == d, d != probe), lambda t: "%d %d %d" % t)
+    obs["bool"] = run(lambda: bool(d), lambda b: "%d" % b)
+    obs["neg"] = run(lambda: -d, rd_state)
+    obs["abs"] = run(lambda: abs(d), rd_state)
+    obs["normalized"] = run(lambda: d.normalized(), rd_state)
+    obs["repr"] = run(lambda: repr(d), str)
+    obs["mul"] = run(lambda: d * 3, rd_state)
+    obs["addrd"] = run(lambda: d + probe, rd_state)
+    obs["subrd"] = run(lambda: probe - d, rd_state)
+    obs["weeks"] = run(lambda: d.weeks, str)
+    return obs
+
+
+def rd_state(d):
+    """all 18 state tokens of an object, floats shown by repr (the comparison is implementation vs implementation)"""
+    f = [getattr(d, k) for k in REL] + [getattr(d, k) for k in ABS]
+    return " ".join(repr(v) for v in f) + " " + wd_tokens(d.weekday) + " %r" % (d._has_time,)
+
+
+def model_requests(d, x, probe):
+    """the model's answer for the CURRENT record: driver requests + the implementation's answer, for integer records"""
+    w, t, pw = rd_wire(d), t_wire(x), rd_wire(probe)
+    reqs, exp = [], []
+    reqs.append("rd.add %s %s" % (w, t)); exp.append(run(lambda: x + d, t_show))
+    reqs.append("rd.rsub %s %s" % (w, t)); exp.append(run(lambda: x - d, t_show))
+    reqs.append("rd.bool " + w); exp.append("ok %d" % (1 if d else 0))
+    reqs.append("rd.hash " + w); exp.append("ok " + capture_hash_tuple(d)[0])
+    reqs.append("rd.expr R %s neg" % w); exp.append(run(lambda: -d, rd_wire))
+    reqs.append("rd.expr R %s abs" % w); exp.append(run(lambda: abs(d), rd_wire))
+    reqs.append("rd.expr R %s R %s add" % (w, pw)); exp.append(run(lambda: d + probe, rd_wire))
+    reqs.append("rd.expr R %s R %s sub" % (pw, w)); exp.append(run(lambda: probe - d, rd_wire))
+    if max(abs(getattr(d, k)) for k in REL) * 3 < 2 ** 53:
+        reqs.append("rd.expr R %s mul 3" % w); exp.append(run(lambda: d * 3, rd_wire))
+    if abs(d.days) < 2 ** 53:
+        reqs.append("rd.weeks " + w); exp.append("ok %d" % d.weeks)
+    if max(abs(getattr(d, k)) for k in REL) * 3 < 2 ** 53:
+        reqs.append("rd.normalized " + w); exp.append(run(lambda: d.normalized(), rd_wire))
+        reqs.append("rd.muldy %s 3 1" % w); exp.append(run(lambda: d * 1.5, rd_wire))
+        reqs.append("rd.divp2 %s 1 2" % w); exp.append(run(lambda: d / -4, rd_wire))
+    return reqs, exp
+
+
+def history_corr(ctx, rng, starts, n_steps, tag):
+    """correspondence part: run random histories on the implementation; after EVERY step compare the object with the model
+    evaluated on its current record, the `weeks` setter with rd.setweeks, and the whole life with rd.hist.
+    Returns (reqs, exp); the caller sends them (with_generated doubles them against the translated methods)."""
+    reqs, exp = [], []
+    for d0 in starts:
+        d = clone_record(d0) if rng.random() < 0.3 else d0
+        if not is_int_valued(d):
+            continue
+        x, probe = g_temporal(rng), mkrd(g_kw(rng, "c03")) if rng.random() < 0.7 else clone_record(d)
+        start_w = rd_wire(d)
+        steps = g_steps(rng, n_steps)
+        wire = []
+        for st in steps:
+            if st[0] == "use":
+                observations(d, x, probe)          # really use it: whatever a use leaves behind must not show later
+            elif st[0] == "weeks" and abs(d.days) < 2 ** 53:
+                reqs.append("rd.setweeks %s %d" % (rd_wire(d), st[1]))
+                apply_step(d, st)
+                exp.append("ok " + rd_wire(d))
+            elif st[0] == "weeks":
+                continue
+            else:
+                apply_step(d, st)
+            wire.append(step_wire(st))
+            q, e = model_requests(d, x, probe)
+            reqs += q; exp += e
+            ctx.count(tag + "_steps")
+        reqs.append("rd.hist %s %s" % (start_w, " ".join(wire))); exp.append("ok " + rd_wire(d))
+        ctx.count(tag + "_objects")
+    return reqs, exp
+
+
+def history_oracle(ctx, rng, make_start, n_obj, n_steps, tag, law="history"):
+    """oracle part, on the implementation alone: after every step of a random history, every observation of the object
+    equals the observation of a fresh object with the same field record, and — when the record is one the constructor can
+    return — of relativedelta(**fields), which it must also equal and hash like.  A difference is a failing input
+    (start, steps, operand) and is replayable."""
+    for i in range(n_obj):
+        start = make_start(rng)
+        if start is None:
+            continue
+        steps = g_steps(rng, n_steps, tame=0.85)
+        x = g_temporal(rng)
+        pk = g_kw(rng, "c03")
+        ctx.case((tag, i, repr(start), repr(steps)[:200]))
+        bad = run_history(start, steps, x, pk, ctx, tag)
+        if bad:
+            ctx.violation("history: after %d steps the object answers %s = %s but a fresh object with the same fields answers %s"
+                          % (bad["step"] + 1, bad["obs"], bad["got"], bad["fresh"]),
+                          {"law": law, "start": bad["start"], "steps": steps[:bad["step"] + 1], "x": t_wire(x),
+                           "probe": kw_json(pk), "obs": bad["obs"], "against": bad["against"]})
+
+
+def run_history(start, steps, x, pk, ctx=None, tag="hist"):
+    """start = ("kw", kwargs) | ("diff", t1_wire, t2_wire) | ("expr", kwargs_a, kwargs_b).  Returns None or the first difference."""
+    d = build_start(start)
+    probe = mkrd(pk)
+    used = False
+    for i, st in enumerate(steps):
+        if st[0] == "use":
+            observations(d, x, probe)
+            used = True
+        else:
+            try:
+                apply_step(d, st)
+            except Exception:
+                continue
+        got = observations(d, x, probe)
+        fresh = observations(clone_record(d), x, probe)
+        against = "fresh object with the same attributes"
+        if got == fresh and reachable(d):
+            kw = {k: getattr(d, k) for k in REL + ABS}
+            kw["weekday"] = d.weekday
+            c = mkrd(kw)
+            fresh = observations(c, x, probe)
+            against = "relativedelta(**current fields)"
+            if got == fresh and not (d == c and c == d and hash(d) == hash(c) and not (d != c)):
+                return {"step": i, "obs": "==/hash", "got": "d == c: %s, hash equal: %s" % (d == c, hash(d) == hash(c)),
+                        "fresh": "True, True", "start": start_json(start), "against": against}
+            if ctx is not None:
+                ctx.count(tag + "_reachable_states")
+        elif ctx is not None:
+            ctx.count(tag + "_unreachable_states")
+        if ctx is not None:
+            ctx.count(tag + ("_states_after_use" if used else "_states_before_first_use"))
+        if got != fresh:
+            k = next(k for k in got if got[k] != fresh[k])
+            return {"step": i, "obs": k, "got": got[k], "fresh": fresh[k], "start": start_json(start), "against": against}
+    return None
+
+
+def build_start(start):
+    if start[0] == "kw":
+        return mkrd(start[1])
+    if start[0] == "diff":
+        from dateutil.relativedelta import relativedelta
+        return relativedelta(parse_t(start[1].split()), parse_t(start[2].split()))
+    if start[0] == "expr":
+        return mkrd(start[1]) + mkrd(start[2])
+    raise ValueError(start[0])
+
+
+def start_json(start):
+    if start[0] == "kw":
+        return ["kw", kw_json(start[1])]
+    if start[0] == "expr":
+        return ["expr", kw_json(start[1]), kw_json(start[2])]
+    return list(start)
+
+
+def start_unjson(j):
+    if j[0] == "kw":
+        return ("kw", kw_unjson(j[1]))
+    if j[0] == "expr":
+        return ("expr", kw_unjson(j[1]), kw_unjson(j[2]))
+    return tuple(j)
+
+
+def replay_history(c):
+    """replay of a `history` violation: True iff it no longer fails"""
+    start = start_unjson(c["start"])
+    x = parse_t(c["x"].split())
+    bad = run_history(start, c["steps"], x, kw_unjson(c["probe"]))
+    print("start=%r steps=%r x=%s" % (c["start"], c["steps"], x))
+    if bad:
+        print("still failing: after step %d, %s = %s; %s answers %s" % (bad["step"] + 1, bad["obs"], bad["got"], bad["against"], bad["fresh"]))
+    return bad is None
+
+
+def g_start_kw(rng):
+    for _ in range(20):
+        kw = g_kw(rng, "c03")
+        kw.pop("yearday", None); kw.pop("nlyearday", None)
+        try:
+            d = mkrd(kw)
+        except (ValueError, IndexError):
+            continue
+        if isinstance(kw.get("weekday"), int):
+            kw["weekday"] = d.weekday
+        return ("kw", kw)
+    return None
